@@ -95,6 +95,8 @@ type Runner struct {
 	Res    *Result
 	hung   map[string]bool
 	cur    []Step
+	step   int
+	Full   bool // issue every request kind at every step
 }
 
 func NewRunner(ctx context.Context, actors int) (*Runner, error) {
@@ -269,6 +271,7 @@ func (r *Runner) Replay(bi int, steps []Step) {
 				all[fmt.Sprint(i)] = o
 			}
 		}
+		r.step = si
 		for as, o := range all {
 			var a int
 			fmt.Sscan(as, &a)
@@ -293,8 +296,15 @@ func outcome(err error, rows int) string {
 	return "ok"
 }
 
+// kindGroup spreads the request kinds over three consecutive steps (the listing is issued at every step)
+var kindGroup = map[string]int{"list": -1, "filter-indexed": 0, "order-limit": 1, "aggregate": 2, "group": 0, "showDeleted": 1, "version": 2,
+	"commits-all": 0, "docID": 1, "commits": 2, "latestCommits": 0, "cid-read": 1, "commits-cid": 2}
+
 func (r *Runner) q(n *cluster.Node, a int, kind, req string) (map[string]any, error, bool) {
 	if r.hung[kind] {
+		return nil, nil, false
+	}
+	if g, ok := kindGroup[kind]; ok && g >= 0 && !r.Full && g != r.step%3 {
 		return nil, nil, false
 	}
 	r.Res.Requests++
@@ -444,7 +454,7 @@ func (r *Runner) observe(bi, si int, n *cluster.Node, a int, o *Obs, docIDs map[
 	}
 	// 12 collection API listing of ids
 	col, err := n.DB.GetCollectionByName(r.as(a), "T")
-	if err == nil {
+	if err == nil && (r.Full || r.step%3 == 0) {
 		r.Res.Requests++
 		r.Res.ByKind["GetAllDocIDs"]++
 		ch, err := col.GetAllDocIDs(r.as(a))
